@@ -34,10 +34,12 @@ theorem acceptScore_some {new : Option ℝ} {old kt thr s : ℝ}
   | some n =>
     simp only at h
     split at h
-    · exact h
+    · simp at h
     · split at h
       · exact h
-      · simp at h
+      · split at h
+        · exact h
+        · simp at h
 
 /-! ### one step -/
 
